@@ -15,11 +15,12 @@ import (
 // is nil, in the connection's goroutine, i.e. the whole server stops. For every unexported pointer field of a
 // module struct that per-connection code uses as the receiver of a method of a foreign type (regexp, zap, rate ...)
 // without a nil test of that field in the same function:
-//   (a) every store to the field in the module stores a value that cannot be nil when the storing function goes on
-//       (a fresh object, the result of a foreign constructor - judged together with its error -, or a module
-//       helper all of whose results are such values), and
-//   (b) some function that stores it does so on every path to a return without error (the field is not left at
-//       its zero value by a branch).
+//
+//	(a) every store to the field in the module stores a value that cannot be nil when the storing function goes on
+//	    (a fresh object, the result of a foreign constructor - judged together with its error -, or a module
+//	    helper all of whose results are such values), and
+//	(b) some function that stores it does so on every path to a return without error (the field is not left at
+//	    its zero value by a branch).
 func c04ProvisionedPointers(c *Ctx, r *Report, rule string) {
 	r.rule(rule, "pointers prepared while provisioning and dereferenced per connection without a nil test (compiled regexps, loggers ...): every store to the field stores a value that cannot be nil (fresh object, foreign constructor result taken with its error, helper whose every result is such), and a storing function assigns it on every path to a return without error", 10)
 	type fkey struct{ sn, f string }
@@ -266,7 +267,9 @@ type callResultValue struct {
 	index int
 }
 
-func (cr callResult) value() ssa.Value { return callResultValue{Value: cr.call, call: cr.call, index: cr.index} }
+func (cr callResult) value() ssa.Value {
+	return callResultValue{Value: cr.call, call: cr.call, index: cr.index}
+}
 
 // onNonNilEdge: block b is reached only through the "v != nil" outcome of a test of v (directly, or through a
 // chain of single-predecessor blocks).
